@@ -158,44 +158,7 @@ parts.append(h("c04_bracketed_paste", "C04,C02", "\x1b[200~zz \xc3\xa9\x1b[201~"
 # ---- DECRPSS (ReportSettingMatcher): a harness on it makes kani-compiler 0.68 panic (intrinsics.rs:243, `ends_with` ->
 # compare_bytes); its content (sgr_face + apply) is covered by the C06 harnesses; not under contract here
 
-# ---- OSC colour reports: rgb:<r>/<g>/<b> with 1-4 hex digits per component (XParseColor scaling)
-def parse_color_harness(nd):
-    n = 4 + 3 * nd + 2
-    idx = lambda c: 4 + c * (nd + 1)
-    return '''
-//# kind=bounded tier=%s props=C04 bound="`rgb:` colour with %d hex digit(s) per component, every digit value, both letter cases" fns=parse_color | parse_color scales an %d-digit hex component h to the 8-bit value XParseColor defines (most significant 8 bits; 1 digit: h*17) for every digit string
-#[kani::proof]
-#[kani::unwind(%d)]
-fn c04_parse_color_%ddigit() {
-    let mut buf = [0u8; %d];
-    buf[0] = b'r'; buf[1] = b'g'; buf[2] = b'b'; buf[3] = b':';
-    let mut want = [0u32; 3];
-    let mut c = 0;
-    while c < 3 {
-        let base = 4 + c * %d;
-        let mut k = 0;
-        while k < %d {
-            let d: u8 = kani::any();
-            kani::assume(d < 16);
-            let upper: bool = kani::any();
-            buf[base + k] = if d < 10 { b'0' + d } else if upper { b'A' + d - 10 } else { b'a' + d - 10 };
-            want[c] = want[c] * 16 + d as u32;
-            k += 1;
-        }
-        if c < 2 { buf[base + %d] = b'/'; }
-        c += 1;
-    }
-    let s = unsafe { std::str::from_utf8_unchecked(&buf) };
-    let scale = |v: u32| -> u8 { (match %d { 1 => v * 17, 2 => v, 3 => v >> 4, _ => v >> 8 }) as u8 };
-    match parse_color(s) {
-        Some(col) => assert!(col == RGBA::new(scale(want[0]), scale(want[1]), scale(want[2]), 255)),
-        None => assert!(false),
-    }
-    kani::cover!(want[0] > 0);
-}
-''' % ("thorough", nd, nd, n + 4, nd, n - 1 if False else 4 + 3 * nd + 2, nd + 1, nd, nd, nd)
-
-for nd in (4, 2, 1, 3):
-    parts.append(parse_color_harness(nd))
+# ---- OSC colour reports (parse_color): harnesses for rgb:<1-4 hex digits> were built and withdrawn - str::parse::<RGBA>,
+# strip_prefix, split and from_str_radix over symbolic text do not finish in CBMC (4 x 600 s timeouts); not under contract
 
 TEXT = "\n".join(parts).replace("/*COMMON*/", COMMON)
